@@ -1,6 +1,6 @@
 #!/bin/bash
 # tools/run_all.sh [quick|thorough]: every claimed check, one after the other, with timing
-T=${1:-quick}
+T=${1:-quick}; mkdir -p out
 for p in C01 C02 C03 C04 C05 C06 C07 C08 C09 C10 C11 C12 C13 C14 C15 C16 C18 C19 C20; do
   s=$(date +%s); ./check $p --tier $T > out/run_$p.$T.log 2>&1; rc=$?; e=$(date +%s)
   echo "$p exit=$rc $((e-s))s $(head -1 out/run_$p.$T.log | cut -c1-150)"; grep -h "SELF-TEST\|DISAGREEMENT\|VIOLATION\|UNDECIDED" out/run_$p.$T.log | head -5
